@@ -199,3 +199,52 @@ Definition parse_check (pfloats : list (str * str)) (c : list tok * option pval)
   end.
 Definition parse_mismatches (pfloats : list (str * str)) (cs : list (list tok * option pval)) : list N :=
   failing (parse_check pfloats) cs.
+
+(* ---- container values over their object graph (which instance sits where) ---- *)
+From PcoreV Require Import Model.ValuePrint.
+
+Definition tok_beq (a b : tok) : bool :=
+  match a, b with
+  | KEnd, KEnd | KLBracket, KLBracket | KRBracket, KRBracket | KLBrace, KLBrace | KRBrace, KRBrace
+  | KLParen, KLParen | KRParen, KRParen | KComma, KComma | KDot, KDot | KRocket, KRocket | KEqual, KEqual => true
+  | KName s, KName s' | KIdent s, KIdent s' | KInt s, KInt s' | KFloat s, KFloat s' | KRegexp s, KRegexp s'
+  | KString s, KString s' => str_eqb s s'
+  | _, _ => false
+  end.
+Fixpoint toks_beq (a b : list tok) : bool :=
+  match a, b with
+  | [], [] => true
+  | x :: r, y :: r' => tok_beq x y && toks_beq r r'
+  | _, _ => false
+  end.
+
+(* a value: (the Array / Hash instances reachable from it, children before parents; the reference to the value;
+   the tokens of the text px.ToString2(v, Program) wrote, None when that text does not lex).
+   A text with a `<recursive reference>` marker does not lex. The detector must be empty again at the end. *)
+Definition value_check (c : list node * ref * option (list tok)) : bool :=
+  let '(h, r, obs) := c in
+  match print_value h r, obs with
+  | VOk (out, g), Some ts => negb (existsb is_rec out) && toks_beq (strip out) ts && match g with [] => true | _ => false end
+  | VOk (out, _), None => existsb is_rec out
+  | _, _ => false
+  end.
+Definition value_mismatches (cs : list (list node * ref * option (list tok))) : list N := failing value_check cs.
+
+(* ---- the creators on parsed arguments, in every form the parser accepts ---- *)
+
+(* strings.ToLower on ASCII text (the cases of this tie are ASCII) *)
+Definition ascii_lower (s : str) : str :=
+  map (fun b => if (N.leb 65 b && N.leb b 90)%bool then (b + 32)%N else b) s.
+
+(* (name, resolved arguments, Some T = what the creator returned | None = it reported an error, the nested types
+   of T that accept undef). Every regexp string of these cases compiles (rx_ok = true). *)
+Definition create_check (c : tname * list pv * option ty * list ty) : bool :=
+  let '(n, args, obs, au) := c in
+  let accepts_undef x := existsb (ty_beq x) au in
+  match create ascii_lower (fun _ => true) accepts_undef n args, obs with
+  | COk t, Some t' => ty_beq t t'
+  | CErr, None => true
+  | CUnmodelled, _ => true
+  | _, _ => false
+  end.
+Definition create_mismatches (cs : list (tname * list pv * option ty * list ty)) : list N := failing create_check cs.
